@@ -428,7 +428,8 @@ class Labels(JSONField):
         """
         for k, v in kwargs.items():
             assert v is not None  # could be strings or lists of strings
-            assert isinstance(v, str) or isinstance(v, list)
+            # strings or lists of strings only: list elements are type-checked too
+            assert isinstance(v, str) or (isinstance(v, list) and all(isinstance(i, str) for i in v))
             try:
                 # will toss an exception if field is not defined
                 self.__getattribute__(k)
